@@ -60,6 +60,11 @@ fn main() {
         for (n, f) in fates(&sim, st.pid) { println!("  {} => {}", n, match f { Fate::Done(v) => v.show(), o => format!("{:?}", o) }); }
         return;
     }
+    // child entries must not outlive their parent (a parent killed by `timeout` would otherwise leave them spinning)
+    if args.len() >= 2 && args[1].ends_with("-child") || args.len() >= 2 && args[1] == "c18-ladders" {
+        let parent = std::os::unix::process::parent_id();
+        std::thread::spawn(move || loop { std::thread::sleep(std::time::Duration::from_secs(2)); if std::os::unix::process::parent_id() != parent { std::process::exit(3); } });
+    }
     if args.len() >= 7 && args[1] == "c18-child" {
         let p = |i: usize| args[i].parse::<u64>().unwrap();
         vh::c18::child_main(p(2), p(3), p(4), p(5), p(6));
